@@ -18,3 +18,17 @@ Proof. split; vm_compute; reflexivity. Qed.
 From Rsbdd Require Import Syntax.LexUnique.
 Theorem C08_lex_unique uc l ts : Lexes uc l ts <-> ts = lex_raw uc l.
 Proof. exact (LexUnique.C08_lex_unique uc l ts). Qed.
+
+(** the parser is onto: every syntax tree without embedded diagrams is the parse of its (fully bracketed)
+    print-out, and whatever the parser returns is such a tree *)
+From Rsbdd Require Import Lang.Free Syntax.Printer.
+Theorem C08_print_parse f : nofsub f -> parse (unparse f ++ TEof :: nil) = Ok f nil.
+Proof. exact (parse_unparse f). Qed.
+Theorem C08_parse_trees ts f : G_formula ts f -> nofsub f.
+Proof. exact (parse_nofsub ts f). Qed.
+Print Assumptions C08_print_parse. Print Assumptions C08_parse_trees.
+Example C08_print_instance :
+  unparse (FQuant QExists (0 :: 1 :: nil) (FCountC AtMost (FVar 0 :: FNot (FVar 2) :: nil) 1%N))
+  = TOpenParen :: TExists :: TVar 0 :: TComma :: TVar 1 :: THash :: TOpenSquare :: TVar 0 :: TComma :: TNot :: TVar 2 :: TCloseSquare
+      :: TImpliesInv :: TNum 1%N :: TCloseParen :: nil.
+Proof. vm_compute; reflexivity. Qed.
